@@ -12,6 +12,7 @@ import Kitoken.Model.DefCodec
 import Kitoken.Model.Export
 import Kitoken.Spec.Keeps
 import Kitoken.Model.Tiktoken
+import Kitoken.Model.ConvertHf
 namespace Kitoken.Driver
 
 open Kitoken Std
@@ -154,6 +155,10 @@ structure State where
       tokens an independent parser found (SRCT lines). -/
   convs : HashMap Nat Spec.Converted := {}
   srcs : HashMap Nat (Array Spec.SrcToken) := {}
+  /-- C15: the parsed fields of a Tokenizers JSON source (HFA / HFV / HFM lines) -/
+  hfAdded : HashMap Nat (Array Convert.AddedToken) := {}
+  hfVocab : HashMap Nat (Array (Bytes × Nat × Nat)) := {}
+  hfMerges : HashMap Nat (Array Bytes) := {}
 
 def showInit : Except InitError (Tokenizer Score) → String
   | .ok _ => "OK"
@@ -814,6 +819,64 @@ def handleKeeps (st : State) (args : List String) (impl : List String) : String 
   | _ => "BAD-OP"
 
 def sameSpecials (a b : List SpecialDef) : Bool := a == b
+
+/-- `HFA <slot> <id> <content> <special> <normalized>` / `HFV <slot> <text> <id> <score bits>` / `HFM <slot> <text>`. -/
+def handleHfLine (st : State) (kind : String) (args : List String) : State × String :=
+  match kind, args with
+  | "HFA", [slot, id, content, special, normalized] =>
+    (match slot.toNat?, id.toNat?, parseHex content, parseBool special, parseBool normalized with
+      | some slot, some id, some c, some sp, some n =>
+        let arr := st.hfAdded.getD slot #[]
+        let st := { st with hfAdded := st.hfAdded.erase slot }
+        ({ st with hfAdded := st.hfAdded.insert slot (arr.push ⟨UInt32.ofNat id, c, sp, n⟩) }, "ACK")
+      | _, _, _, _, _ => (st, "BAD-OP"))
+  | "HFV", [slot, text, id, score] =>
+    (match slot.toNat?, parseHex text, id.toNat?, score.toNat? with
+      | some slot, some t, some id, some sc =>
+        let arr := st.hfVocab.getD slot #[]
+        let st := { st with hfVocab := st.hfVocab.erase slot }
+        ({ st with hfVocab := st.hfVocab.insert slot (arr.push (t, id, sc)) }, "ACK")
+      | _, _, _, _ => (st, "BAD-OP"))
+  | "HFM", [slot, text] =>
+    (match slot.toNat?, parseHex text with
+      | some slot, some t =>
+        let arr := st.hfMerges.getD slot #[]
+        let st := { st with hfMerges := st.hfMerges.erase slot }
+        ({ st with hfMerges := st.hfMerges.insert slot (arr.push t) }, "ACK")
+      | _, _ => (st, "BAD-OP"))
+  | _, _ => (st, "BAD-OP")
+
+/-- `CONVHF <slot> <bpe|unigram|wordpiece> <unknown: token hex / id / -> <byteChars> <byteRunes> :: OK`: the Lean model of
+    the converter's vocabulary path on the parsed source against the implementation's result in the slot. -/
+def handleConvHf (st : State) (args : List String) : String :=
+  match args with
+  | [slot, kind, unk, bc, br] =>
+    match slot.toNat?, parseBool bc, parseBool br with
+    | some slot, some bc, some br =>
+      let added := (st.hfAdded.getD slot #[]).toList
+      let vocab := (st.hfVocab.getD slot #[]).toList
+      let merges := (st.hfMerges.getD slot #[]).toList
+      let res : Option (Except Convert.HfError Convert.HfOut) :=
+        match kind with
+        | "bpe" =>
+          let u := if unk == "-" then some none else (parseHex unk).map some
+          u.map fun u => Convert.convertHfBpe (vocab.map fun (t, id, _) => (t, UInt32.ofNat id)) merges added u bc br id id
+        | "unigram" =>
+          let u := if unk == "-" then some none else unk.toNat?.map fun n => some (UInt32.ofNat n)
+          u.map fun u => Convert.convertHfUnigram (vocab.map fun (t, _, sc) => (t, UInt32.ofNat sc)) added u br bc id id
+        | "wordpiece" =>
+          (parseHex unk).map fun u => Convert.convertHfWordPiece (vocab.map fun (t, id, _) => (t, UInt32.ofNat id)) added u bc br id id
+        | _ => none
+      (match res, st.convs[slot]? with
+        | some (.ok o), some c =>
+          let what := if o.vocab != c.vocab then "DIFF vocabulary"
+            else if !o.scores.isEmpty && o.scores != c.scores then "DIFF scores"
+            else if !sameSpecials o.specials c.specials then "DIFF specials" else "OK"
+          s!"{what} || HOLDS-NA"
+        | some (.error _), _ => "ERR || HOLDS-NA"
+        | _, _ => "BAD-OP")
+    | _, _, _ => "BAD-OP"
+  | _ => "BAD-OP"
 
 /-- `CONVTT <slot> :: OK`: the model's `convertTiktoken` on the source lines equals the implementation's result. -/
 def handleConvTT (st : State) (args : List String) : String :=
